@@ -81,6 +81,9 @@ func checkBatch(c batchCase) *vt.Fail {
 			}
 		}
 	}
+	if raceEnabled {
+		c.Race = true // GORACE=atexit_sleep_ms=0 is passed through to the (race-instrumented) helpers
+	}
 	envMu.Lock()
 	defer envMu.Unlock()
 	// canaries: host variables that no script may see (set in the test process only, not in helper processes)
@@ -454,7 +457,7 @@ func TestBatches(t *testing.T) {
 			out = append(out, d)
 		}
 		return out
-	}}, vt.N(150, 1500))
+	}}, vt.N(150, 600))
 }
 
 var replayers = vt.Replayer{"batch": vt.Decode(checkBatch)}
